@@ -72,6 +72,12 @@ def optional_mask(case):
     return sum(1 << i for i, b in enumerate(bits) if b), sum(bool(b) for b in bits)
 
 
+def _snapshot(x):
+    if isinstance(x, (list, tuple)):
+        return [bytes(c) if not isinstance(c, str) else c for c in x]
+    return bytes(x) if not isinstance(x, str) else x
+
+
 def run_case(case):
     r = Result()
     kind = case['kind']
@@ -80,6 +86,34 @@ def run_case(case):
         exp, wire, payload, signer, final_name = build(case)
     except Exception as e:
         return r.bad(f'C01/encode-exception/{kind}/{_exc_sig(e)}', f'{e!r}')
+    # the caller's own objects are inputs, not scratch space: build a second packet from the SAME name object
+    if case.get('reuse') and case['signer']['kind'] not in ('ecdsa',):
+        try:
+            name_obj = P.name_in_rep(case['name'], case['name_rep'])
+            before = _snapshot(name_obj)
+            wires = []
+            for _ in range(2):
+                if kind == 'interest':
+                    p_ = case['params']
+                    _dsig.timestamp = lambda: case['sig_time']
+                    _dsig.gen_nonce_64 = lambda: case['sig_nonce']
+                    ip = InterestParam(can_be_prefix=p_['can_be_prefix'], must_be_fresh=p_['must_be_fresh'], nonce=p_['nonce'],
+                                       lifetime=p_['lifetime'], hop_limit=p_['hop_limit'],
+                                       forwarding_hint=[[S.comp_bytes(c) for c in n] for n in p_['forwarding_hint']])
+                    wires.append(bytes(make_interest(name_obj, ip, payload, K.make_signer(case['signer'], for_interest=True))))
+                else:
+                    m_ = case['meta']
+                    mi = None if m_ is None else MetaInfo(m_['content_type'], m_['freshness_period'],
+                                                          None if m_['final_block_id'] is None else bytes.fromhex(m_['final_block_id']))
+                    wires.append(bytes(make_data(name_obj, mi, payload, K.make_signer(case['signer']))))
+            if _snapshot(name_obj) != before:
+                r.bad(f'C01/caller-name-object-modified/{kind}', f'rep {case["name_rep"] % 7}: {before} -> {_snapshot(name_obj)}')
+            if wires[0] != wire or wires[1] != wire:
+                r.bad(f'C01/second-packet-from-same-name-object-differs/{kind}', f'rep {case["name_rep"] % 7}')
+        except Exception as e:
+            r.bad(f'C01/reuse-exception/{kind}/{_exc_sig(e)}', f'{e!r}')
+        if r.violations:
+            return r
     # (1) exactly one well-formed element, exact lengths, everything nested inside its parent
     try:
         sd = P.strict_data(wire) if kind == 'data' else P.strict_interest(wire)
